@@ -25,7 +25,10 @@ CONSTANTS TopNames,      \* names usable at the top level
           MetaChoices,   \* how many metadata records are offered at each commit
           TagNames,
           Pointless,     \* BOOLEAN: commits without any change allowed
-          NewRoots       \* BOOLEAN: more than one root revision allowed
+          NewRoots,      \* BOOLEAN: more than one root revision allowed
+          SampleEvery,   \* SampledLaws checks the expensive in-spec laws on the finished histories with nobj % SampleEvery = 0
+          PrefillDirs    \* subset of DirNames: the session starts with these directories full of (plain) files, so that
+                         \* moves out of / between populated directories are frequent, not a rare late event
 
 Paths == {<<n>> : n \in TopNames} \cup {<<d, c>> : d \in DirNames, c \in ChildNames}
 DirOK(p) == (Len(p) = 1 /\ p[1] \in DirNames) \/ (Len(p) = 2 /\ SubDirs)
@@ -49,9 +52,13 @@ VARIABLES plan,   \* the revision graph to be built
           done
 vars == <<plan, lim, h, wt, nobj, nedit, done>>
 
+PrefillPaths == {<<d>> : d \in PrefillDirs} \cup {<<d, c>> : d \in PrefillDirs, c \in ChildNames}
+PrefillNo == CHOOSE f \in [PrefillPaths -> 1..Cardinality(PrefillPaths)] : \A p, q \in PrefillPaths : p # q => f[p] # f[q]
+Prefill == {[p |-> p, k |-> IF Len(p) = 1 THEN "directory" ELSE "file", c |-> IF Len(p) = 1 THEN 0 ELSE 1, x |-> FALSE,
+             o |-> PrefillNo[p]] : p \in PrefillPaths}
 Init == /\ plan \in Plans /\ lim \in 1..MaxEdits
         /\ h = [P |-> <<>>, T |-> <<>>, M |-> <<>>, tags |-> {}, tip |-> 0]
-        /\ wt = {} /\ nobj = 1 /\ nedit = 0 /\ done = FALSE
+        /\ wt = Prefill /\ nobj = Cardinality(PrefillPaths) + 1 /\ nedit = 0 /\ done = FALSE
 
 Building == ~done /\ NRevs(h) < Len(plan)
 CanEdit == Building /\ nedit < lim
@@ -151,7 +158,19 @@ LawsHoldOnSpec == done =>
         tagd == \E g \in h.tags : U[g.rev] # U[IF g.rev = 1 THEN NRevs(h) ELSE g.rev - 1]
         keeps == [I EXCEPT !.T = [r \in 1..Len(I.P) |-> Forget(Relabel(h, f).T[r])]]
         nox == NoExec(I)   swp == SwapParents(I)   tgm == TagMoved(I)
-    IN /\ GitFailed(h, I) = {} /\ GitTreesExact(h, I)
+        io == IdealObjects(h)
+        used == {x \in UNION {{[r |-> r, o |-> o] : o \in io.emit[r]} : r \in RevsOf(h)} :
+                   \E q \in RevsOf(h) : \E o2 \in io.emit[q] : x.o.id \in o2.refs}
+    IN /\ GitFailed(h, I) = {} /\ GitTreesExact(h, I) /\ Git2Failed(h, I) = {}
+       \* the incremental conversion is closed and complete; leaving out an object something refers to is noticed
+       /\ LawObjectClosure(h, io) /\ LawObjectSets(h, io)
+       /\ (used # {} => LET x == CHOOSE x \in used : TRUE
+                             cut == [io EXCEPT !.emit[x.r] = @ \ {x.o}]
+                         IN ~LawObjectClosure(h, cut) /\ ~LawObjectSets(h, cut))
+       \* rounds: the part a parent of the tip reaches means alone what it means inside the whole history, and is carried
+       /\ \A k \in SeqRange(h.P[h.tip]) :
+             /\ Projection(Upto(h, k)).all = Unfold(h.P, FullLabel(h), k)
+             /\ GitFailed(Upto(h, k), IdealObs(Upto(h, k), SomePerm(Upto(h, k)))) = {}
        /\ FastFailed(h, I) = {} /\ FastRoundTrip(h, I) /\ FastExact(h, keeps)
        /\ (SomeExec => "trees" \in GitFailed(h, nox) /\ "trees" \in FastFailed(h, nox))
        /\ (SomeEmptyDir => ~GitTreesExact(h, keeps) /\ LawGitTrees(h, keeps) /\ ~FastExact(h, I))
@@ -160,6 +179,10 @@ LawsHoldOnSpec == done =>
        /\ "count" \in FastFailed(h, [I EXCEPT !.nrevs = @ + 1])
        /\ GitFailed(h, [I EXCEPT !.ok = FALSE]) = SeqRange(GitLawNames)
        /\ \A o \in {nox, swp, tgm} : (FastFailed(h, o) = {}) <=> FastRoundTrip(h, o)
+
+\* for large pools of random walks: the same laws on a sample of the finished histories (every walk still satisfies
+\* GenWF and DropEmptyDirsLaws)
+SampledLaws == (done /\ nobj % SampleEvery = 0) => (ProjectionIdFree /\ LawsHoldOnSpec)
 
 \* anti-vacuity witnesses for the antecedents above: TLC must reach these (invariants that must be VIOLATED); the
 \* other classes (renames, kind changes, deletions, symlinks, ...) are counted on the histories handed to the harness
